@@ -2,7 +2,7 @@
 # seed sweep: every ready check with several seeds (quick tier); prints only the runs that do not end with OK
 cd "$(dirname "${BASH_SOURCE[0]}")"
 for sd in ${SEEDS:-1 2 3}; do
-  for p in $(cat harness/ready.txt); do
+  for p in ${PROPS:-$(cat harness/ready.txt)}; do
     out=$(VERIF_SEED=$sd ./check $p --tier quick 2>&1 | grep "^OK\|VIOLATION\|HARNESS" | head -2 | tr '\n' '|')
     case "$out" in OK*) ;; *) echo "seed=$sd $p $out";; esac
   done
